@@ -21,7 +21,8 @@ if getattr(U, "_is_ip_address", None) is not None:
     _EP.replace(U._is_ip_address, lambda addr: False)
 _EP.replace(_socket, ModProxy(_socket, inet_aton=_not_an_ip))
 _EP.replace(_socket.inet_aton, _not_an_ip)
-_DECIDE = getattr(U, "_is_no_proxy_host")
+_DECIDE = getattr(U, "_is_no_proxy_host", None)
+UNIT_MISSING = "" if _DECIDE is not None else "websocket._url._is_no_proxy_host"
 
 
 def _no_proxy_decision(host, entries):
